@@ -21,6 +21,8 @@ func checkC10(p *Prog, r *Result, tier string) {
 	r.Rule("C10.R7", "a delete drops the pending entry (CALL.del(pending) on every successful delete under caching; shared with C01.R2)", 1)
 	r.Rule("C10.R9", "a schema owns its settings object: on Create and on load, every pointer stored into the AsyncWrites field of a schema was allocated by the package during that call (a private copy, or the decoder's) or is nil; the caller's pointer, which one Schema value used for several collections shares between them, is never kept (the 'flusher started' flag lives in that object: with a shared one only the first collection gets a flusher)", 2)
 	checkSettingsOwned(p, c0(p), r, "C10.R9")
+	r.Rule("C10.R10", "the private copy starts without a flusher: in the reach of the schema initialisation, every settings object that is filled by copying a whole settings value has its unexported 'flusher started' flag stored false in the same function; a copy taken from settings that already run a flusher (those of db.Schema()) would otherwise never get one", 1)
+	checkSettingsCopyReset(p, r, "C10.R10")
 	r.NotDecided = []string{"that the threshold/timeout comparison fires in time (wall clock)", "that the flusher is not starved"}
 	c := computeClosures(p)
 
@@ -836,4 +838,94 @@ func calleeIsClosure(v ssa.Value, fn *ssa.Function) bool {
 		return false
 	}
 	return walk(v)
+}
+
+// checkSettingsCopyReset: whole-value copies of the async settings made during schema initialisation reset the
+// unexported started-flag.
+func checkSettingsCopyReset(p *Prog, r *Result, rule string) {
+	a := p.A
+	init := p.FuncByName("Schema.initialize")
+	if init == nil || a.Async == nil {
+		r.Report(rule, "Schema.initialize", "function", Undecided, "schema initialisation or settings type not found", "", nil, false)
+		return
+	}
+	st := structOf(a.Async)
+	var flags []*types.Var
+	for i := 0; i < st.NumFields(); i++ {
+		if f := st.Field(i); !f.Exported() {
+			if b, ok := f.Type().Underlying().(*types.Basic); ok && b.Info()&types.IsBoolean != 0 {
+				flags = append(flags, f)
+			}
+		}
+	}
+	if len(flags) == 0 {
+		r.Report(rule, "-", "no unexported flag in the settings type", Discharged, "the settings type carries no private boolean state: nothing to reset", "", nil, false)
+		return
+	}
+	n := 0
+	for _, fn := range calleesWithin(p, init, 2) {
+		if !inSod(p, fn) {
+			continue
+		}
+		for _, b := range fn.Blocks {
+			for _, in := range b.Instrs {
+				cp, ok := in.(*ssa.Store)
+				if !ok {
+					continue
+				}
+				al, ok := cp.Addr.(*ssa.Alloc)
+				if !ok || named(al.Type().Underlying().(*types.Pointer).Elem()) != a.Async {
+					continue
+				}
+				ld, ok := cp.Val.(*ssa.UnOp)
+				if !ok || ld.Op != token.MUL {
+					continue
+				}
+				// a whole settings value is copied into the local object: every flag has to be reset on it afterwards
+				n++
+				missing := ""
+				for _, flag := range flags {
+					reset := false
+					if al.Referrers() != nil {
+						for _, rf := range *al.Referrers() {
+							fa, ok := rf.(*ssa.FieldAddr)
+							if !ok || fa.Referrers() == nil {
+								continue
+							}
+							if _, f, _ := fieldOf(fa); f != flag {
+								continue
+							}
+							for _, rr := range *fa.Referrers() {
+								if s2, ok := rr.(*ssa.Store); ok && s2.Addr == ssa.Value(fa) {
+									if c, ok := s2.Val.(*ssa.Const); ok && c.Value != nil && c.Value.String() == "false" && (s2.Block() != cp.Block() || indexIn(s2) > indexIn(cp)) {
+										reset = true
+									}
+								}
+							}
+						}
+					}
+					if !reset {
+						missing = flag.Name()
+					}
+				}
+				if missing == "" {
+					r.Report(rule, FuncName(fn), "copied settings start with the flag reset", Discharged, "", p.Pos(in.Pos()), nil, true)
+				} else {
+					r.Report(rule, FuncName(fn), "copied settings start with the flag reset", Violated, "the schema initialisation copies a whole settings value and keeps its private flag `"+missing+"`: settings taken from a live schema (db.Schema()) already say that a flusher runs, so no flusher is ever started for the schema that receives the copy and its accepted writes stay pending until Close", p.Pos(in.Pos()), nil, true)
+				}
+			}
+		}
+	}
+	if n == 0 {
+		r.Report(rule, FuncName(init), "no whole-value copy of settings", Discharged, "the initialisation does not copy a settings value as a whole (ownership is C10.R9)", p.Pos(init.Pos()), nil, false)
+	}
+}
+
+func indexIn(in ssa.Instruction) int {
+	for i, x := range in.Block().Instrs {
+		if x == in {
+			return i
+		}
+	}
+	return -1
 }
